@@ -1,7 +1,7 @@
 /-
 Driver for C12.  Strings travel as comma-separated decimal code points (`_` = empty string).
 
-PAT x=<0|1> f=<flags: subset of s m x q, or _> mode=<search|full|ctx> src=<cps> subj=<cps>;<cps>;...
+PAT x=<0|1> v=<10|11> f=<flags: subset of s m x q, or _> mode=<search|full|ctx> src=<cps> subj=<cps>;<cps>;...
   (mode=ctx: each subject is <prev|->:<cps>:<next|->, answered by derivMatch in that context)
   -> valid=<1|0> unclear=<0|1> f12=<0|1> scan=<0|1> bref=<0|1> props=<1|0> model=<bits|-> spec=<bits|->
      valid   : the text is a regExp of the flavour (x=1: F&O 3.1, x=0: plain XSD) with quantities
@@ -9,8 +9,8 @@ PAT x=<0|1> f=<flags: subset of s m x q, or _> mode=<search|full|ctx> src=<cps> 
      unclear : uses an unescaped '-' on which XSD 1.0 / 1.1 differ
      f12     : trigger of known finding F12 (some class has a negated escape + another item)
      scan    : trigger of known finding F12s (class scanner: backslash / hyphen adjacency)
-     model   : per subject, derivative matcher with classes evaluated by the CharacterClass *model*
-               over the tables of the live implementation
+     model   : per subject, derivative matcher with every bracket expression run through the transcribed
+               class scanner + CharacterClass model over the live tables (ERR: the scanner model raises)
      spec    : per subject, derivative matcher with the XSD class semantics over the spec tables
      ('-' when invalid or outside the back-reference-free fragment)
 FUN s=<cps> spans=<a>-<b>,... parts=<L<cps>|W>/... (template parts: literal / $0)
@@ -62,21 +62,33 @@ def CClass.toClassEM : CClass → Option ClassE
     | none => pure (.plain ng its)
     | some s => do let s' ← s.toClassEM; pure (.minus ng its s')
 
-/-- like `Rx.toRE` but every class goes through the `CharacterClass` model -/
-def toREM (fl : Flags) : Rx → RE
-  | .eps => .eps
-  | .chr c => .cls (· == c)
-  | .dot => if fl.dotAll then anyCh else .cls fun c => c != 10 && c != 13
-  | .cls c => match c.toClassEM with
-    | some e => let cc := evalClass e; .cls fun x => decide (x < maxCP1) && cc.contains x
-    | none => .empty
-  | .bol => .anchor (if fl.multi then .bolM else .bol)
-  | .eol => .anchor (if fl.multi then .eolM else .eol)
-  | .group _ r => toREM fl r
-  | .cat a b => .cat (toREM fl a) (toREM fl b)
-  | .alt a b => .alt (toREM fl a) (toREM fl b)
-  | .quant r lo hi _ => rep (toREM fl r) lo hi
-  | .backref _ => .empty
+def implT : MTables :=
+  { esc := fun e => if e == 115 then implEsc .s else if e == 100 then implEsc .d else if e == 119 then implEsc .w
+                    else if e == 105 then implEsc .i else implEsc .c,
+    prop := propLookup }
+
+/-- the class a bracket expression `[...]` stands for in the implementation: the transcribed
+scanner on its source text; escapes outside brackets (`\d`, `\p{..}`: empty `src`/2 characters) are
+translated by `translate_pattern` itself, modelled through the algebra on the parsed item -/
+def classModel (v10 xp : Bool) (c : CClass) (src : List Ch) : Option CC :=
+  match src with
+  | 91 :: _ => parseClassText implT v10 xp src
+  | _ => (c.toClassEM).map evalClass
+
+/-- like `Rx.toRE` but every class goes through the scanner + `CharacterClass` model;
+`none` = the model raises `RegexError` -/
+def toREM (v10 xp : Bool) (fl : Flags) : Rx → Option RE
+  | .eps => some .eps
+  | .chr c => some (.cls (· == c))
+  | .dot => some (if fl.dotAll then anyCh else .cls fun c => c != 10 && c != 13)
+  | .cls c src => (classModel v10 xp c src).map fun cc => .cls fun x => decide (x < maxCP1) && cc.contains x
+  | .bol => some (.anchor (if fl.multi then .bolM else .bol))
+  | .eol => some (.anchor (if fl.multi then .eolM else .eol))
+  | .group _ r => toREM v10 xp fl r
+  | .cat a b => do let x ← toREM v10 xp fl a; let y ← toREM v10 xp fl b; pure (.cat x y)
+  | .alt a b => do let x ← toREM v10 xp fl a; let y ← toREM v10 xp fl b; pure (.alt x y)
+  | .quant r lo hi _ => (toREM v10 xp fl r).map fun x => rep x lo hi
+  | .backref _ => some .empty
 
 /-- some item names an unknown `Is` block (known finding F12u when the class is parsed for XSD 1.0) -/
 def CClass.unknownBlock : CClass → Bool
@@ -87,7 +99,7 @@ def CClass.unknownBlock : CClass → Bool
 def classF12 (c : CClass) : Bool := match c.toClassEM with | some e => e.f12 | none => false
 
 def Rx.anyClass (p : CClass → Bool) : Rx → Bool
-  | .cls c => p c
+  | .cls c _ => p c
   | .group _ r | .quant r _ _ _ => r.anyClass p
   | .cat a b | .alt a b => a.anyClass p || b.anyClass p
   | _ => false
@@ -116,11 +128,6 @@ def scanTrigger (s : List Ch) : Bool :=
     | 93 :: rest => go fuel rest (depth - 1) (some 93)
     | c :: rest => go fuel rest depth (some c)
   go (s.length + 1) s 0 none
-
-def implT : MTables :=
-  { esc := fun e => if e == 115 then implEsc .s else if e == 100 then implEsc .d else if e == 119 then implEsc .w
-                    else if e == 105 then implEsc .i else implEsc .c,
-    prop := propLookup }
 
 /-- `CLS v=<10|11> x=<0|1> src=<cps of the whole class text> probes=<cps>`
   -> model=<bits|ERR> spec=<bits|BAD> unclear=<0|1> f12=<0|1> scan=<0|1>
@@ -188,11 +195,14 @@ def answerPat (fs : List (String × String)) : String :=
         let hdr := s!"valid={b props} unclear={b unclear} f12={b f12} scan={b scan} bref={b bref} props={b props} ublk={b ublk}"
         if !props || bref then hdr ++ " model=- spec=-" else
         let rs := r.toRE specT fl
-        let rm := toREM fl r
+        let v10 := field fs "v" == "10"
         let run (re : RE) (s : Option Ch × List Ch × Option Ch) : Bool :=
           if ctxMode then derivMatch re s.1 s.2.1 s.2.2
           else if full then fullB re s.2.1 else searchB re s.2.1
-        hdr ++ " model=" ++ bits (subjs.map (run rm)) ++ " spec=" ++ bits (subjs.map (run rs))
+        let model := match toREM v10 xp fl r with
+          | some rm => bits (subjs.map (run rm))
+          | none => "ERR"
+        hdr ++ " model=" ++ model ++ " spec=" ++ bits (subjs.map (run rs))
 
 def parseSpans (s : String) : Option (List Span) :=
   if s == "_" || s == "" then some [] else
